@@ -25,7 +25,9 @@ Inductive case :=
   | KTree (t : tree) (queries : list Z)
   (* a tree read at the query dates, then edited through its nodes (a call of update on
      the leaf at [path]) and read again at the same dates, any number of times *)
-  | KTreeOps (t : tree) (ops : list top) (queries : list Z).
+  | KTreeOps (t : tree) (ops : list top) (queries : list Z)
+  (* a flat group evaluated at each query date, then asked for vectors of member names *)
+  | KLookup (ch : list (string * tree)) (queries : list Z) (keys : list (list string)).
 
 (** history of a leaf of a generated tree (only loadable entries are generated there) *)
 Definition yparam (entries : list (Z * yentry Z)) : hist Z :=
@@ -88,4 +90,14 @@ Definition run (c : case) : obs :=
       end
   | KTree t qs => read_tree t qs
   | KTreeOps t ops qs => OL (tree_steps t ops qs)
+  | KLookup ch qs keys =>
+      OL (map (fun d =>
+                 match at_instant (TNode ch) d with
+                 | Some (VNode l) =>
+                     OL (map (fun key => match vector_lookup l key with
+                                         | Ok zs => OL (map OZ zs)
+                                         | Err e => OErr e
+                                         end) keys)
+                 | _ => OErr EOther
+                 end) qs)
   end.
